@@ -304,7 +304,7 @@ def install(M):
     reg('core::num::<impl usize>::saturating_mul', sat_mul)
 
     def div_ceil(I, a, b):
-        conc(I, b, 'div_ceil divisor')
+        b = conc(I, b, 'div_ceil divisor')
         if b == 0:
             raise Panic('attempt to divide by zero')
         if not is_sym(a):
@@ -315,7 +315,7 @@ def install(M):
     def checked_div(I, a, b):
         if I.branch(v_eq(b, 0)):
             return NONE()
-        conc(I, b, 'checked_div divisor')
+        b = conc(I, b, 'checked_div divisor')
         return Some(a // b if not is_sym(a) else a / b)
     reg('core::num::<impl usize>::checked_div', checked_div)
 
@@ -393,7 +393,7 @@ def install(M):
     def s_get_mut(I, s, i):
         l, a, b = as_list(s)
         if I.branch(v_lt(i, b - a)):
-            conc(I, i, 'get_mut index')
+            i = conc(I, i, 'get_mut index')
             return Some(Ptr(l, a + i))
         return NONE()
     pat(r'^core::slice::<impl \[.*\]>::get_mut$', s_get_mut)
@@ -414,8 +414,8 @@ def install(M):
         from models import range_bounds
         l = deref(v).l
         a, b = range_bounds(deref(r), len(l))
-        conc(I, a, 'drain')
-        conc(I, b, 'drain')
+        a = conc(I, a, 'drain')
+        b = conc(I, b, 'drain')
         if not 0 <= a <= b <= len(l):
             raise Panic('drain range out of bounds')
         out = l[a:b]
@@ -434,7 +434,7 @@ def install(M):
 
     def _swap_remove(I, v, i):
         l = deref(v).l
-        conc(I, i, 'swap_remove')
+        i = conc(I, i, 'swap_remove')
         if not 0 <= i < len(l):
             raise Panic('swap_remove index out of bounds')
         l[i], l[-1] = l[-1], l[i]
